@@ -137,8 +137,8 @@ func c11Plan(tier string) []PlanItem {
 func init() {
 	oracles["C11"] = oracleC11
 	props["C11"] = &propDef{
-		Level: "fault_enumeration",
-		Rule:  "all sequences over {disconnect, reconnect, closed} of length <= L delivered serially (as nats.go's dispatcher does) through the handlers the monitor registers on an unconnected nats.Conn, x grace in {2H, 3H+1ms} (and the 5s default on short sequences) x ownership change during the outage {none, usurper record, expiry} x (short sequences) partition of the store and Stop/StopWithContext; each notification and the change moved to every choice point (<= D deviations, incl. inside the 100ms settle sleep and the verification reads); non-trivial = a notification reached a leading instance",
+		Level:  "fault_enumeration",
+		Rule:   "all sequences over {disconnect, reconnect, closed} of length <= L delivered serially (as nats.go's dispatcher does) through the handlers the monitor registers on an unconnected nats.Conn, x grace in {2H, 3H+1ms} (and the 5s default on short sequences) x ownership change during the outage {none, usurper record, expiry} x (short sequences) partition of the store and Stop/StopWithContext; each notification and the change moved to every choice point (<= D deviations, incl. inside the 100ms settle sleep and the verification reads); non-trivial = a notification reached a leading instance",
 		Assume: []string{"connection callbacks never overlap (nats.go dispatches them from one goroutine, in order); the harness reproduces that", "single monitored instance; the usurper is an outside writer"},
 		Plan:   func(t string) []PlanItem { return append(c11Plan(t), finePlan("C11", t)...) },
 	}
